@@ -47,6 +47,10 @@ pub struct MigCase {
     pub source: Source,
     pub allow_ambiguous: bool,
     pub dest: DestKind,
+    /// a helper thread bumps the source's modification time as soon as the temporary
+    /// destination appears (the bytes stay the same): migrate() may then fail with SourceChanged
+    #[serde(default)]
+    pub touch_source: bool,
 }
 
 pub fn item() -> BoxedStrategy<Item> {
@@ -103,8 +107,9 @@ fn case_strat(tier: Tier) -> BoxedStrategy<MigCase> {
         source_strategy(tier),
         any::<bool>(),
         prop_oneof![12 => Just(DestKind::Absent), 1 => Just(DestKind::File), 1 => Just(DestKind::Symlink), 1 => Just(DestKind::Directory)],
+        proptest::bool::weighted(0.15),
     )
-        .prop_map(|(source, allow_ambiguous, dest)| MigCase { source, allow_ambiguous, dest })
+        .prop_map(|(source, allow_ambiguous, dest, touch_source)| MigCase { source, allow_ambiguous, dest, touch_source })
         .boxed()
 }
 
@@ -247,6 +252,7 @@ struct Notes {
     active_journal: bool,
     outcome: String,
     records: usize,
+    touched: bool,
 }
 
 fn materialise(src: &Source) -> Option<(Vec<u8>, u32)> {
@@ -309,6 +315,24 @@ fn judge(case: &MigCase, notes: &mut Notes) -> Result<(), (String, String)> {
     }
     let expected = expected_contents(&img, case.allow_ambiguous);
     feoxdb::verif::set_thread_clock(None);
+    let toucher_stop = Arc::new(std::sync::atomic::AtomicBool::new(false));
+    let toucher = case.touch_source.then(|| {
+        let (dir, src, stop) = (dir.clone(), src.clone(), toucher_stop.clone());
+        std::thread::spawn(move || {
+            let t0 = std::time::Instant::now();
+            while !stop.load(Ordering::Acquire) && t0.elapsed() < std::time::Duration::from_secs(20) {
+                let tmp_exists = std::fs::read_dir(&dir).map(|d| d.filter_map(|e| e.ok()).any(|e| e.file_name().to_string_lossy().contains("feox-migrate"))).unwrap_or(false);
+                if tmp_exists {
+                    if let Ok(f) = std::fs::OpenOptions::new().append(true).open(&src) {
+                        let _ = f.set_modified(std::time::SystemTime::now() + std::time::Duration::from_secs(7));
+                    }
+                    return true;
+                }
+                std::thread::yield_now();
+            }
+            false
+        })
+    });
     let result = {
         let _g = env::watch("migrate");
         env::with_visible_cpus(2, || {
@@ -316,6 +340,9 @@ fn judge(case: &MigCase, notes: &mut Notes) -> Result<(), (String, String)> {
             feoxdb::migrate(feoxdb::MigrationOptions::new(&src, &dst).allow_ambiguous_legacy_recovery(case.allow_ambiguous))
         })
     };
+    toucher_stop.store(true, Ordering::Release);
+    let touched = toucher.map(|t| t.join().unwrap_or(false)).unwrap_or(false);
+    notes.touched = touched;
     let cleanup = |dir: &std::path::Path| {
         let _ = std::fs::remove_dir_all(dir);
     };
@@ -346,6 +373,7 @@ fn judge(case: &MigCase, notes: &mut Notes) -> Result<(), (String, String)> {
             }
             // a failure must have a reason the statement allows
             let allowed = pre.is_some()
+                || touched
                 || exp_fail
                 || matches!(e, feoxdb::MigrationError::KeyTooLarge { .. })
                 || (version >= 3);
@@ -467,6 +495,9 @@ pub fn run(tier: Tier, seed: u64, replay: Option<&str>) -> i32 {
             if notes.active_journal {
                 *o.entry("source.active_journal".into()).or_insert(0) += 1;
             }
+            if notes.touched {
+                *o.entry("source.mtime_touched_during_migration".into()).or_insert(0) += 1;
+            }
             if notes.records > 256 {
                 *o.entry("source.more_than_256_records".into()).or_insert(0) += 1;
             }
@@ -496,7 +527,7 @@ pub fn run(tier: Tier, seed: u64, replay: Option<&str>) -> i32 {
         tier,
         seed,
         "exploration",
-        "legacy sources generated by proptest: (a) files written by the real code running generated workloads on harness-built v1/v2 devices, cleanly closed or cut at a random crash point with a random subset of un-synced writes (active journals, pending retirements); (b) images synthesised with the independent codec: duplicate generations in both scan orders and with equal timestamps, expired and far-future expiries, multi-block records, valid retirement markers, ambiguous all-zero tombstones, v1 keys longer than the v3 maximum, active journal slots over arbitrary extents, >256 records. Each with and without the ambiguity opt-in and with the destination absent or pre-existing (file, symlink, directory). Oracle: source bytes unchanged; on failure nothing at the destination path (pre-existing untouched) and no temporary left; on success the destination decodes as v3 (independent codec) to exactly the (key, value, timestamp, expiry) set the codec's newest-wins decode of the source yields, the report matches, ambiguous sources fail without the opt-in, and the destination opened with TTL on shows exactly the keys whose newest generation is unexpired. Non-trivial: source with a superseded generation, a multi-block record and a retired extent.",
+        "legacy sources generated by proptest: (a) files written by the real code running generated workloads on harness-built v1/v2 devices, cleanly closed or cut at a random crash point with a random subset of un-synced writes (active journals, pending retirements); (b) images synthesised with the independent codec: duplicate generations in both scan orders and with equal timestamps, expired and far-future expiries, multi-block records, valid retirement markers, ambiguous all-zero tombstones, v1 keys longer than the v3 maximum, active journal slots over arbitrary extents, >256 records. Each with and without the ambiguity opt-in and with the destination absent or pre-existing (file, symlink, directory); in 15% of the cases a helper thread bumps the source's modification time while migrate() runs (same bytes), so migrate() may fail late with SourceChanged. Oracle: source bytes unchanged; on failure nothing at the destination path (pre-existing untouched) and no temporary left; on success the destination decodes as v3 (independent codec) to exactly the (key, value, timestamp, expiry) set the codec's newest-wins decode of the source yields, the report matches, ambiguous sources fail without the opt-in, and the destination opened with TTL on shows exactly the keys whose newest generation is unexpired. Non-trivial: source with a superseded generation, a multi-block record and a retired extent.",
     );
     ev.started = started;
     ev.evaluations = evaluations.load(Ordering::Relaxed);
